@@ -195,6 +195,8 @@ func FormatBytes(dst []byte, src []byte, opts *Options) []byte {
 		// Strip any blank lines at the end of the file.
 		if len(line) == 0 {
 			nBlankLines++
+			// A blank line ends a #preprocessor line, even after a '\\'.
+			preproc = false
 			continue
 		}
 		if nBlankLines > 0 {
